@@ -5,6 +5,7 @@ package main
 import (
 	"bytes"
 	"context"
+	"encoding/base64"
 	"fmt"
 	"math/rand"
 	"os"
@@ -124,6 +125,8 @@ func (o dop) term() string {
 		return fmt.Sprintf("OSetLock %d %s", o.p, hx.Bool(o.lk))
 	case "dump":
 		return "ODump " + hx.B(o.k)
+	case "decode":
+		return "ODecode " + hx.B(o.k)
 	}
 	return "OPaths " + hx.B(o.k)
 }
@@ -136,7 +139,7 @@ func (o dop) short() string {
 		return fmt.Sprintf("persister.Load(%q)", o.k)
 	case "put":
 		return fmt.Sprintf("put(%q,%q)", o.k, o.v)
-	case "get", "dump", "paths":
+	case "get", "dump", "paths", "decode":
 		return fmt.Sprintf("%s(%q)", o.kind, o.k)
 	case "pfx":
 		return fmt.Sprintf("pfx(%d)", o.p)
@@ -307,11 +310,14 @@ func (b *backend) apply(o dop) string {
 			if err := b.d.SetLock(o.p, o.lk); err != nil {
 				res = errTerm(err)
 			}
-		case "dump":
-			if b.name == "pg" {
-				res = "DSkip"
-				return
+		case "decode":
+			kk, err := b.d.DecodeKey(ctx, append([]byte{}, o.k...))
+			if err != nil {
+				res = "DErr EGen"
+			} else {
+				res = "DVal " + valTerm(kk)
 			}
+		case "dump":
 			dm, err := b.d.Dump(ctx, append([]byte{}, o.k...))
 			if err != nil {
 				res = errTerm(err)
@@ -563,8 +569,10 @@ func genValid(r *rand.Rand, thorough, binKeys bool) []dop {
 			default:
 				ops = append(ops, dop{kind: "lock", p: roTypes[r.Intn(4)], lk: r.Intn(2) == 0})
 			}
-		case x < 97:
+		case x < 96:
 			ops = append(ops, dop{kind: "dump", k: prefixOf()})
+		case x < 98:
+			ops = append(ops, dop{kind: "decode", k: storedKey(r, typePool[r.Intn(len(typePool))], sessPool[r.Intn(len(sessPool))], key(), binKeys)})
 		default:
 			ops = append(ops, dop{kind: "paths", k: key()})
 		}
@@ -661,6 +669,9 @@ func genAdversarial(r *rand.Rand, thorough bool) []dop {
 			ops = append(ops, dop{kind: "dump", k: rd.k[:r.Intn(len(rd.k)+1)]})
 		case 2:
 			ops = append(ops, dop{kind: "paths", k: rd.k})
+		case 3:
+			w := ws[r.Intn(len(ws))]
+			ops = append(ops, dop{kind: "decode", k: storedKey(r, w.t, w.s, w.k, r.Intn(3) == 0)})
 		default:
 			ops = append(ops, dop{kind: "get", k: rd.k})
 		}
@@ -757,6 +768,11 @@ func (rn *dbrunner) corpus() error {
 		{"corpus:C10-6-name-too-long", cat(un, pfx(B), put(strings.Repeat("x", 255), "v1"), get(strings.Repeat("x", 255)), get(strings.Repeat("y", 252)), put(strings.Repeat("x", 150), "v2"), get(strings.Repeat("x", 150)))},
 		{"corpus:C10-7-slash-in-session-id", cat(un, pfx(U), sess("a/b"), put("foo", "v1"), get("foo"), sess("ab"), put("foo", "v2"), get("foo"))},
 		{"corpus:C10-8-dump-sessioned-type-without-session", cat(un, pfx(S), put("P1", "v1"), sess("x"), put("a1", "v2"), put("root", "v3"), dump(""), sess(""), get("a1"), dump(""), dump("x"))},
+		{"corpus:pg-dump-cross-type-regression", cat(un, pfx(S), sess("s"), put("a", "state-a"), put("b", "state-b"), pfx(U), put("u", "user-u"), pfx(B), put("foo", "code"), pfx(S), dump(""), dump("zz"), pfx(U), dump(""), dump("v"), sess(""), pfx(B), dump(""), pfx(M), lng("nor"), put("m_menu", "Mnor"), dump(""), get("m_menu"))},
+		{"corpus:session-id-prefix-of-another", cat(un, pfx(S), sess("2547"), put("k", "own"), sess("25471"), put("k", "other"), sess("2547"), dump(""), dump("k"),
+			dop{kind: "decode", k: append([]byte{S}, "25471.k"...)}, dop{kind: "decode", k: append([]byte{S}, "2547.k"...)}, dop{kind: "decode", k: append([]byte{S}, "2547"...)},
+			dop{kind: "decode", k: []byte{S}}, dop{kind: "decode", k: append([]byte{S}, "2547.az3u"...)}, sess(""), dop{kind: "decode", k: append([]byte{S}, "25471.k"...)},
+			pfx(M), dop{kind: "decode", k: append([]byte{M}, "foo_menu_nor"...)}, dop{kind: "decode", k: append([]byte{M}, "ab_nor"...)}, sess("25471"), pfx(S), dump(""))},
 		// C11 findings
 		{"corpus:C11-1-dot-in-session", cat(un, pfx(U), sess("a"), put("b.c", "A"), sess("a.b"), get("c"), put("c", "B"), sess("a"), get("b.c"), dump(""))},
 		{"corpus:C11-2-empty-session", cat(un, pfx(U), sess("a"), put("k", "A"), sess(""), get("a.k"), dump(""), put("a.k", "B"), sess("a"), get("k"))},
@@ -777,6 +793,80 @@ func (rn *dbrunner) corpus() error {
 }
 
 func dbTemplate() uint8 { return db.DATATYPE_TEMPLATE }
+
+// storedKey builds what a backend stores for (type, session, key): type byte, "session." and the key
+// (base64 of it when b64 is set, as the fs binary mode stores it), now and then with a language
+// suffix, cut short, or without the separator -- the inputs of DecodeKey / FromSessionKey.
+func storedKey(r *rand.Rand, t uint8, s string, k []byte, b64 bool) []byte {
+	kk := k
+	if b64 {
+		kk = []byte(base64.StdEncoding.EncodeToString(k))
+	}
+	b := []byte{t}
+	if s != "" {
+		b = append(append(b, s...), '.')
+	}
+	b = append(b, kk...)
+	switch r.Intn(8) {
+	case 0:
+		b = append(b, "_nor"...)
+	case 1: // shorter than the session prefix
+		b = b[:1+r.Intn(len(b))]
+	case 2: // the separator is missing
+		b = append(append([]byte{t}, s...), kk...)
+	}
+	return b
+}
+
+// sessions whose ids are proper prefixes of each other: entries of both, then listings and key
+// decoding under the shorter and the longer id.
+func genPrefixSessions(r *rand.Rand, thorough bool) []dop {
+	vg := &valGen{}
+	bases := []string{"2547", "a", "s1", "+25", "bob"}
+	base := bases[r.Intn(len(bases))]
+	longer := base + []string{"1", "12345678", "x", "0", "b"}[r.Intn(5)]
+	sess := []string{base, longer, longer + "9", ""}
+	types := []uint8{db.DATATYPE_USERDATA, db.DATATYPE_STATE}
+	keys := [][]byte{[]byte("k"), []byte("key1"), []byte("m"), []byte("state"), []byte("ka")}
+	var ops []dop
+	if r.Intn(3) == 0 {
+		ops = append(ops, unlockAll()...)
+	}
+	t := types[r.Intn(2)]
+	ops = append(ops, dop{kind: "pfx", p: t})
+	// entries in the shorter and in the longer session
+	for _, s := range []string{base, longer, base, longer} {
+		ops = append(ops, dop{kind: "sess", s: s})
+		for i := 0; i < 1+r.Intn(2); i++ {
+			ops = append(ops, dop{kind: "put", k: keys[r.Intn(len(keys))], v: vg.next(r)})
+		}
+	}
+	n := 5 + r.Intn(8)
+	if thorough {
+		n = 5 + r.Intn(24)
+	}
+	for i := 0; i < n; i++ {
+		k := keys[r.Intn(len(keys))]
+		switch x := r.Intn(100); {
+		case x < 30:
+			ops = append(ops, dop{kind: "sess", s: sess[[]int{0, 0, 0, 1, 1, 2, 3}[r.Intn(7)]]}, dop{kind: "dump", k: k[:r.Intn(len(k)+1)]})
+		case x < 55:
+			ops = append(ops, dop{kind: "sess", s: sess[r.Intn(2)]},
+				dop{kind: "decode", k: storedKey(r, t, sess[r.Intn(3)], k, r.Intn(3) == 0)})
+		case x < 70:
+			ops = append(ops, dop{kind: "sess", s: sess[r.Intn(3)]}, dop{kind: "put", k: k, v: vg.next(r)})
+		case x < 85:
+			ops = append(ops, dop{kind: "sess", s: sess[r.Intn(4)]}, dop{kind: "get", k: k})
+		case x < 93:
+			t = types[r.Intn(2)]
+			ops = append(ops, dop{kind: "pfx", p: t})
+		default:
+			ops = append(ops, dop{kind: "pfx", p: docTypes[r.Intn(6)]}, dop{kind: "dump", k: nil}, dop{kind: "pfx", p: t})
+		}
+	}
+	ops = append(ops, dop{kind: "pfx", p: t}, dop{kind: "sess", s: base}, dop{kind: "dump", k: nil})
+	return ops
+}
 
 // persister histories: a persist.Persister and direct calls share one db handle. The direct calls
 // switch the handle to USERDATA / STATE, other sessions, and store records under the persister's
@@ -843,7 +933,13 @@ func runDb(o opts) error {
 	if o.prop == "C11" {
 		viol = "db_violations_c11"
 	}
-	w := &hx.Writer{Dir: o.out, Prop: o.prop, Imports: "Bytes Errors Consts DbKey DbModel CorrBase DbCorr", CaseType: "dbcase",
+	imports := "Bytes Errors Consts DbKey DbModel CorrBase DbCorr"
+	if o.prop == "C18" {
+		// the store side of the translation-then-default lookup: language-scoped Gets against the reference map
+		viol = "db_violations_c18"
+		imports += " DbLangCorr"
+	}
+	w := &hx.Writer{Dir: o.out, Prop: o.prop, Imports: imports, CaseType: "dbcase",
 		Mism: "db_mismatches", Viol: viol, PerShard: 40}
 	rn := &dbrunner{w: w}
 	if err := rn.corpus(); err != nil {
@@ -873,6 +969,12 @@ func runDb(o opts) error {
 	}
 	for _, ops := range persistCorpus() {
 		if err := rn.run("corpus:persister-shared-handle", ops); err != nil {
+			return err
+		}
+	}
+	for c := 0; c < max(20, o.n/6); c++ {
+		r := hx.Rng(o.seed, "db-prefix-sessions", c)
+		if err := rn.run("prefix-sessions", genPrefixSessions(r, thorough)); err != nil {
 			return err
 		}
 	}
